@@ -424,11 +424,13 @@ class GenerateMProcess(E2Contract):
         d = c_sys.dim
         post = [param_obj(W, mk, "state", c_sys, 0, f"s{x}") for x in range(m)] if mode == 2 else None
         if mode == 1:
-            # non-degenerate spectra (the degenerate case groups equal FLOATS in a dict: not expressible symbolically)
+            # separated spectra: the code groups eigenvalues closer than Settings.get_atol() into one eigenspace (rounding of a degenerate
+            # eigenvalue); the grouped branch is float-level and is evaluated natively on instances (C06_native, bounded stand-in)
+            atol = W.mod("quara.settings").Settings.get_atol()
             for x in range(m):
                 w, _ = W.np.linalg.eigh(W.S.op_from_vec(c_sys, povm.vecs[x]))
                 for k in range(d - 1):
-                    mk.require(w[k] < w[k + 1])
+                    mk.require(w[k] + atol < w[k + 1])
         return dict(povm=povm, post=post, rho=mk.hermitian("rho", d))
 
     def sample(self, cfg, names, rng):
